@@ -112,13 +112,12 @@ def _m3b():
 def _m4():
     from mosaik import scheduler
     orig = scheduler.get_input_data
-    state = {"n": 0}
 
     def get_input_data(world, sim):
         d = orig(world, sim)
-        # the k-th step *globally* loses one input: depends on the interleaving
-        state["n"] += 1
-        if state["n"] % 7 == 0:
+        # loses one input whenever another simulator is in the middle of a step: a function
+        # of the interleaving only
+        if any(s.is_in_step for s in world.sims.values() if s is not sim):
             for eid in d:
                 for attr in d[eid]:
                     if d[eid][attr]:
